@@ -146,6 +146,47 @@ def _nondet_events(ctx, mod):
     return out
 
 
+def sec_hidden_state(rc, roots, what: str):
+    """The functions reachable from `roots` compute their result from their arguments only: none of them mutates a
+    module-level object (a memo, a counter, a registry) or calls into a nondeterminism source (id(), hash(), random, time).
+    Borrowed by the functional properties: "for every input" presumes that the result is a function of the input."""
+    res = rc.res
+    lk = rc.lk
+    seen, todo = {}, [rc.func(q) for q in roots]
+    while todo:
+        f = todo.pop()
+        if f.qualname in seen or f.module.role == "control":
+            continue
+        seen[f.qualname] = f
+        for c in ast.walk(f.node):
+            if isinstance(c, ast.Call):
+                r = lk.resolve(f.module, c.func)
+                if r.kind == "func" and r.obj is not None:
+                    todo.append(r.obj)
+    from .common import mutation_analysis
+    ma = mutation_analysis(rc)
+    bad = 0
+    for q, f in sorted(seen.items()):
+        for e in ma.events.get(q, []):
+            if e.kind == "global-write":
+                bad += 1
+                res.violation("D-global", f.module, f.name, e.node, f"{q} (reached from {what}) keeps state between calls: it mutates the module-level object "
+                              f"{e.param} - the result depends on earlier calls, not only on the arguments", norm_text(e.node), "no module-level state",
+                              construct=f"hidden state {q}")
+    by_mod = {}
+    for q, f in seen.items():
+        by_mod.setdefault(f.module.short, (f.module, []))[1].append(f)
+    for mod, fs in by_mod.values():
+        for node, hit in _nondet_events(rc.ctx, mod):
+            owner = _enclosing_func(mod, node)
+            if owner is not None and any(owner is f.node for f in fs):
+                bad += 1
+                res.violation("D-nondet", mod, owner.name, node, f"{what} reaches a nondeterminism source: {hit} - equal inputs need not give equal results",
+                              norm_text(node), "no reference into a nondeterministic API", construct=f"nondeterminism {owner.name}")
+    if not bad:
+        res.ok("D-global", what, f"{len(seen)} reachable function(s): no module-level state is written, no nondeterminism source is called")
+
+
 def _enclosing_func(mod, node):
     cur = mod.parent(node)
     while cur is not None and not isinstance(cur, ast.FunctionDef):
